@@ -732,6 +732,7 @@ func main() {
 	toolsSlice()
 	scalarSlice()
 	endToEnd()
+	e5()
 	res.Info["grammar"] = map[string]any{"turns": "U | U,A | U,A,U", "user_blocks": labels(userBlocks), "assistant_blocks": labels(asstBlocks), "block_list_len": "<=3 (last user turn and the assistant turn of 2-turn requests), <=1..2 elsewhere",
 		"system": []string{"absent", "string", "1 block", "2 blocks"}, "tool_choice": 9, "tools": "0..2", "scalars": "max_tokens x temperature x top_p x top_k x stop_sequences x stream x model x unknown field"}
 	res.Info["rule"] = "one evaluation = one request through Translator.TransformRequest (plus a subset through the booted olla); distinct_nontrivial = distinct expected item sequences / distinct produced scalar documents"
